@@ -311,7 +311,7 @@ class CFG(object):
                 dq.append(v)
         return None
 
-    def find_path_flags(self, sources, targets, flags, mode=N, cut_nodes=(), keep_edge=None):
+    def find_path_flags(self, sources, targets, flags, mode=N, cut_nodes=(), keep_edge=None, target_ok=None):
         """Like find_path, but path-sensitive in the boolean locals named in `flags`: an assignment
         `flag = True/False` is remembered along the path and a later test of `flag` follows only
         the consistent edge.  Any other assignment to a flag forgets its value."""
@@ -332,7 +332,7 @@ class CFG(object):
         while dq:
             cur = dq.popleft()
             u, known = cur
-            if u in tg:
+            if u in tg and (target_ok is None or target_ok(self.nodes[u], dict(known))):
                 path = []
                 c = cur
                 while c is not None:
@@ -554,6 +554,12 @@ class Builder(object):
                 trues += t
                 cur = f
             return trues, cur
+        if isinstance(e, ast.IfExp):
+            # (X if T else Y) used as a condition
+            tt, tf = self.cond(e.test, stmt, fr, ctx)
+            xt, xf = self.cond(e.body, stmt, tt, ctx)
+            yt, yf = self.cond(e.orelse, stmt, tf, ctx)
+            return xt + yt, xf + yf
         n = self.new("test", e, stmt)
         self.connect(fr, n)
         self.implicit_raise(n, e, ctx)
